@@ -117,6 +117,8 @@ pub struct Hist<'a> {
     pub known_hits: Vec<(String, String)>,
     pub in_cache_since: BTreeMap<usize, (u64, u64)>,
     pub reports_during_lookup: usize,
+    /// stack mode: sends and failure reports go through the real path-aware socket (see stack.rs)
+    pub stack: Option<crate::stack::StackSide>,
 }
 
 pub fn fp_str(p: &ScionPath) -> String {
@@ -174,6 +176,13 @@ impl<'a> Hist<'a> {
                 }
             }));
         }
+        // a third of the life histories run in stack mode (not the pre-emptive C20 scenario, which drops the manager)
+        let stack = if prop != "C20" && sim.chance(1, 3) {
+            sim.log("stack mode: sends and reports go through UdpScionSocket over a simulated underlay".into());
+            Some(crate::stack::StackSide::new(&sim, &mgr))
+        } else {
+            None
+        };
         let mut fp_route = BTreeMap::new();
         for (i, r) in routes.iter().enumerate() {
             let p = build_path(r, (BASE_SECS + 1000) as u32, true);
@@ -207,6 +216,7 @@ impl<'a> Hist<'a> {
             known_hits: Vec::new(),
             in_cache_since: BTreeMap::new(),
             reports_during_lookup: 0,
+            stack,
         }
     }
 
@@ -225,6 +235,9 @@ impl<'a> Hist<'a> {
     // ------------------------------------------------------------------ operations
 
     pub fn op_send(&mut self, pair: Pair) -> ActorId {
+        if self.stack.is_some() {
+            return self.stack_send(pair);
+        }
         let (mgr, out, sim) = (self.mgr(), self.handouts.clone(), self.sim.clone());
         let caller = self.callers;
         self.callers += 1;
@@ -311,6 +324,13 @@ impl<'a> Hist<'a> {
     }
 
     pub fn op_report(&mut self, rep: Report) {
+        if self.stack.is_some() {
+            self.sim.log(format!("report via socket {rep:?}"));
+            self.stack_report(&rep);
+            self.penalties.push(Penalty { report: rep, t_ns: self.sim.now_ns(), step: self.sim.with(|s| s.steps), t_eff: vec![None; self.n_dst] });
+            self.reports_since_worker_step += 1;
+            return;
+        }
         let mgr = self.mgr();
         self.sim.log(format!("report {rep:?}"));
         let some_path = build_path(&self.routes[0], (BASE_SECS + 1000) as u32, true);
@@ -318,11 +338,11 @@ impl<'a> Hist<'a> {
         self.sim.spawn("op", async move {
             match r2 {
                 Report::ExtIfDown { asn, ifid, tag } => {
-                    let m = ScmpExternalInterfaceDown::new(ia(1, asn), ifid, vec![tag; 8 + tag as usize]);
+                    let m = ScmpExternalInterfaceDown::new(ia_of(asn), ifid, vec![tag; 8 + tag as usize]);
                     mgr.report_scmp_error(ScmpErrorMessage::ExternalInterfaceDown(m), some_path.dp_path().as_ref());
                 }
                 Report::IntConnDown { asn, ing, eg, tag } => {
-                    let m = ScmpInternalConnectivityDown::new(ia(1, asn), ing, eg, vec![tag; 8 + tag as usize]);
+                    let m = ScmpInternalConnectivityDown::new(ia_of(asn), ing, eg, vec![tag; 8 + tag as usize]);
                     mgr.report_scmp_error(ScmpErrorMessage::InternalConnectivityDown(m), some_path.dp_path().as_ref());
                 }
                 Report::FirstHop { ifid } => {
@@ -574,6 +594,7 @@ impl<'a> Hist<'a> {
                 }
             }
         }
+        self.stack_collect();
         self.check_handouts()?;
         self.check_requests()?;
         self.check_sizes()?;
